@@ -80,6 +80,12 @@ func (e *bcEngine) Gen(rng *rand.Rand, tier string, n int, emit func(string)) {
 	emit("conn ack:0:0 pub:1:5 disc pa:5")
 	emit("conn ack:0:0 sub:1:7 sa:7:0001")
 	emit("wf:1 conn lclose")
+	// inbound application messages: acknowledged by the reader itself; a failing acknowledgement write ends the connection with an error
+	emit("conn ack:0:0 in:0:0 in:1:5 in:2:6 in:2:6 rel:6 rel:6 rel:9 pub:1:5 pa:5")
+	emit("conn ack:0:0 pub:1:3 wf:1 in:1:5 pa:3")
+	emit("conn ack:0:0 sub:1:4 wf:1 in:2:5")
+	emit("conn ack:0:0 in:2:5 ping wf:1 rel:5 pg")
+	emit("conn ack:0:0 wf:1 in:0:0 rel:7 wf:0 in:1:2")
 	emit("wf:1 conn eof")
 	emit("wf:1 conn wf:0 pub:1:1 lclose")
 	if tier == "thorough" {
@@ -138,7 +144,7 @@ func (e *bcEngine) Gen(rng *rand.Rand, tier string, n int, emit func(string)) {
 		steps := 3 + rng.Intn(16)
 		for j := 0; j < steps; j++ {
 			id := ids[rng.Intn(len(ids))]
-			switch x := rng.Intn(24); {
+			switch x := rng.Intn(27); {
 			case x < 3:
 				evs = append(evs, fmt.Sprintf("pub:1:%d", id))
 				open = append(open, fmt.Sprintf("pa:%d", id))
@@ -185,7 +191,14 @@ func (e *bcEngine) Gen(rng *rand.Rand, tier string, n int, emit func(string)) {
 			case x < 23:
 				evs = append(evs, []string{"eof", "lclose", "bad", "disc", "wf:1", "wf:0"}[rng.Intn(6)])
 			default:
-				evs = append(evs, "pg")
+				switch rng.Intn(4) {
+				case 0:
+					evs = append(evs, "pg")
+				case 1, 2:
+					evs = append(evs, fmt.Sprintf("in:%d:%d", rng.Intn(3), ids[rng.Intn(len(ids))]))
+				default:
+					evs = append(evs, fmt.Sprintf("rel:%d", ids[rng.Intn(len(ids))]))
+				}
 			}
 		}
 		if rng.Intn(2) == 0 {
@@ -357,6 +370,10 @@ func (e *bcEngine) Exec(f []string) Result {
 			tr.feed(specAck(0xb0, uint16(atoi(t[1]))))
 		case "pg":
 			tr.feed(specPacket(0xd0, nil))
+		case "in":
+			tr.feed(specPublish("in/t", []byte{7}, byte(atoi(t[1])), false, false, uint16(atoi(t[2]))))
+		case "rel":
+			tr.feed(specAck(0x62, uint16(atoi(t[1]))))
 		case "bad":
 			tr.feed([]byte{0xf0, 0x00})
 		case "cancel":
@@ -374,7 +391,7 @@ func (e *bcEngine) Exec(f []string) Result {
 			tr.setRefuse(t[1] == "1")
 		}
 		switch t[0] {
-		case "ack", "pa", "pr", "pc", "sa", "ua", "pg", "bad":
+		case "ack", "pa", "pr", "pc", "sa", "ua", "pg", "bad", "in", "rel":
 			if inited {
 				tr.waitDrained()
 			}
@@ -430,6 +447,12 @@ func (e *bcEngine) Exec(f []string) Result {
 				ws = append(ws, fmt.Sprintf("P%di%d", p.QoS, p.ID))
 			case 0x60:
 				ws = append(ws, fmt.Sprintf("R%d", p.ID))
+			case 0x40:
+				ws = append(ws, fmt.Sprintf("a%d", p.ID))
+			case 0x50:
+				ws = append(ws, fmt.Sprintf("r%d", p.ID))
+			case 0x70:
+				ws = append(ws, fmt.Sprintf("c%d", p.ID))
 			case 0x80:
 				ws = append(ws, fmt.Sprintf("S%dn%d", p.ID, len(p.Filters)))
 			case 0xa0:
@@ -517,6 +540,41 @@ func (e *bcEngine) Exec(f []string) Result {
 	}
 	// C11: cancellation and connection end release blocked calls
 	ended := false
+	// events at which the reader fails to write the acknowledgement of an inbound PUBLISH / PUBREL (the transport
+	// refuses writes): the reader returns that error, i.e. the connection ends there
+	ackFail := map[int]bool{}
+	{
+		wfOn, connStarted, over := false, false, false
+		q2 := map[int]bool{}
+		for i, ev := range evs {
+			t := strings.Split(ev, ":")
+			switch t[0] {
+			case "conn":
+				connStarted = true
+			case "wf":
+				wfOn = t[1] == "1"
+			case "eof", "lclose", "bad":
+				if connStarted {
+					over = true
+				}
+			case "in":
+				if connStarted && !over && atoi(t[1]) >= 1 {
+					if wfOn {
+						ackFail[i], over = true, true
+					} else if atoi(t[1]) == 2 {
+						q2[atoi(t[2])] = true
+					}
+				}
+			case "rel":
+				if connStarted && !over && q2[atoi(t[1])] {
+					delete(q2, atoi(t[1]))
+					if wfOn {
+						ackFail[i], over = true, true
+					}
+				}
+			}
+		}
+	}
 	for i, ev := range evs {
 		if strings.HasPrefix(ev, "cancel:") {
 			k := atoi(ev[7:])
@@ -526,7 +584,7 @@ func (e *bcEngine) Exec(f []string) Result {
 				props = append(props, viol("C11", "cancel-wrong-error", "call %d returned %v on cancellation, not the context's error", k, calls[k].err))
 			}
 		}
-		if inited && (ev == "eof" || ev == "lclose" || ev == "bad") {
+		if inited && (ev == "eof" || ev == "lclose" || ev == "bad" || ackFail[i]) {
 			started := false
 			for _, e2 := range evs[:i] {
 				if e2 == "conn" {
